@@ -8,6 +8,7 @@ CONSTANTS
   NSTEP = 2
   Accumulate = TRUE
   SortedListing = TRUE
+  CellSymmetric = TRUE
   WaitFirstN = FALSE
   NITER = 2
   AdptFac = 1
@@ -35,3 +36,4 @@ INVARIANT RestartEquivalence
 PROPERTY PickleAppendOnly
 PROPERTY FactorFilesGrow
 CHECK_DEADLOCK FALSE
+PROPERTY ResumeLatest
